@@ -195,8 +195,12 @@ impl Lock {
     pub fn feed_inert(&mut self, rep: &mut Report, bad_checksum: bool, note: &str) {
         let line = if bad_checksum {
             // a perfect next fragment of whatever is open, with a wrong checksum
-            let (n, k, id) = match &self.m.st {
-                reasm_ref::St::Open { id, last, n, .. } => (*n, last.saturating_add(1), *id),
+            let (n, k, id) = match (&self.m.st, self.ctr % 3) {
+                (reasm_ref::St::Open { id, last, n, .. }, 0) => (*n, last.saturating_add(1), *id),
+                // an opener with the open group's id, or without id: looked at before the checksum
+                // it would restart or replace the group
+                (reasm_ref::St::Open { id, n, .. }, 1) => ((*n).max(2), 1, *id),
+                (reasm_ref::St::Open { .. }, _) => (2, 1, None),
                 _ => (2, 1, Some(1)),
             };
             let mut b = Build::simple(n, k, id, b"A", &uniq_payload(self.next_ctr()), 0);
@@ -365,12 +369,15 @@ fn random_histories(ctx: &Ctx, rep: &mut Report, r: &mut Rng) {
         let mut lk = Lock::new(PID);
         lk.dress = hi % 3 == 1;
         let decode_mode = hi % 5 == 0;
-        let len = r.usize(10, 200);
+        // jumbo histories (std / alloc): fragments of up to 98 000 characters, so that groups grow
+        // past 2^16, 255 x 384 and 2^17 bytes - any bound a heap-backed buffer might be given
+        let jumbo = hi % 16 == 3 && !mon::is_noalloc();
+        let len = if jumbo { r.usize(6, 24) } else { r.usize(10, 200) };
         // plan: sequence of (n,k,id,payload, fill, decodable)
         let mut plan: Vec<(u8, u8, Option<u8>, Vec<u8>, u8, Option<bool>)> = Vec::new();
         let mut last_id: Option<u8> = None;
         while plan.len() < len {
-            let n = if r.chance(1, 40) { r.range(10, 255) as u8 } else { r.range(2, 9) as u8 };
+            let n = if jumbo { r.range(2, 5) as u8 } else if r.chance(1, 40) { r.range(10, 255) as u8 } else { r.range(2, 9) as u8 };
             let id = match r.below(5) {
                 0 => None,
                 1 => last_id, // reuse the id immediately
@@ -407,6 +414,14 @@ fn random_histories(ctx: &Ctx, rep: &mut Report, r: &mut Rng) {
                 for k in 1..=n {
                     let c = lk.next_ctr();
                     frags.push((n, k, id, uniq_payload(c), 0, None));
+                }
+            }
+            if jumbo {
+                for f in frags.iter_mut() {
+                    if f.5.is_none() {
+                        let extra = *r.pick(&[0usize, 380, 5000, 30_000, 66_000, 98_000]);
+                        f.3.extend(std::iter::repeat(b'w').take(extra));
+                    }
                 }
             }
             // fault injection
